@@ -113,7 +113,7 @@ type clientCase struct {
 	Header  string  `json:"header"`            // "<absent>" or the X-GRPC-Status value
 	MD      bool    `json:"md,omitempty"`      // reply carries H-Key and (unary) X-Grpc-Trailer-T-Key
 	Details bool    `json:"details,omitempty"` // reply carries one X-GRPC-Details value
-	Body    string  `json:"body,omitempty"`    // unary: "" = an encoded response | empty
+	Body    string  `json:"body,omitempty"`    // unary: "" = an encoded response | empty | page (a proxy's 2 KiB error page)
 	Stream  bool    `json:"stream,omitempty"`  // through NewStream instead of Invoke
 	Opts    *optSet `json:"opts,omitempty"`
 }
@@ -244,6 +244,21 @@ func rendererHandlerOpts(name string) []httpgrpc.HandlerOption {
 		return wr(302)
 	case "nocontent":
 		return wr(204)
+	case "doc", "docstream":
+		// a descriptive error document under the documented status; "doc" declares its
+		// length, "docstream" does not and flushes (chunked over net/http)
+		return []httpgrpc.HandlerOption{httpgrpc.ErrorRenderer(func(_ context.Context, st *status.Status, w http.ResponseWriter) {
+			doc := errorDoc(st)
+			w.Header().Set("Content-Type", "application/json")
+			if name == "doc" {
+				w.Header().Set("Content-Length", strconv.Itoa(len(doc)))
+			}
+			w.WriteHeader(docHTTPStatus(st.Code()))
+			w.Write(doc)
+			if f, ok := w.(http.Flusher); ok && name == "docstream" {
+				f.Flush()
+			}
+		})}
 	}
 	return nil
 }
@@ -328,7 +343,7 @@ func (e *errBody) Read(p []byte) (int, error) {
 func (e *errBody) Close() error { return nil }
 
 // brokenRT: the reply's status line and headers arrive intact, the body is cut short.
-func brokenRT(rp reply) http.RoundTripper {
+func brokenRT(rp reply, o optSet) http.RoundTripper {
 	return common.RT(func(r *http.Request) (*http.Response, error) {
 		if r.Body != nil {
 			io.Copy(io.Discard, r.Body)
@@ -339,8 +354,10 @@ func brokenRT(rp reply) http.RoundTripper {
 			h[k] = append([]string(nil), v...)
 		}
 		half := rp.body[:len(rp.body)/2]
-		return &http.Response{StatusCode: rp.status, Status: http.StatusText(rp.status), Proto: "HTTP/1.1", ProtoMajor: 1, ProtoMinor: 1,
-			Header: h, Body: &errBody{b: half}, Request: r, ContentLength: int64(len(rp.body) + 64)}, nil
+		resp := &http.Response{StatusCode: rp.status, Status: http.StatusText(rp.status), Proto: "HTTP/1.1", ProtoMajor: 1, ProtoMinor: 1,
+			Header: h, Body: &errBody{b: half}, Request: r, ContentLength: int64(len(rp.body) + 64)}
+		frameReply(resp, o.Len, resp.ContentLength)
+		return resp, nil
 	})
 }
 
@@ -408,11 +425,14 @@ func checkServerClient(c serverCase, rp reply, o optSet) (string, string) {
 // must recover the given status (and the handler's metadata wantMD).
 func clientMismatch(rp reply, o optSet, wantCode codes.Code, wantMsg string, wantDetails []proto.Message, wantMD string) (string, string) {
 	obs := fmt.Sprintf("http=%d x-grpc-status=%q opts=%s", rp.status, rp.hdr.Get("X-GRPC-Status"), o)
-	out, h, err, pnc := invoke(common.CannedRT(rp.status, rp.hdr, rp.body), o)
+	out, h, err, pnc := invoke(cannedFor(o, rp.status, rp.hdr, rp.body), o)
 	if pnc != nil {
 		return "panic", fmt.Sprintf("%s panic=%v", obs, pnc)
 	}
 	if wantCode == codes.OK {
+		if o.mayReject(len(rp.body)) && tooLarge(err) {
+			return "", obs + " (response larger than the caller's receive limit: not judged)"
+		}
 		if err != nil {
 			return "ok-call-failed", obs + " client=" + err.Error()
 		}
@@ -431,7 +451,7 @@ func clientMismatch(rp reply, o optSet, wantCode codes.Code, wantMsg string, wan
 		return cl, obs + " " + d
 	}
 	// the status travels in the headers: a body cut short afterwards must not replace the handler's status
-	_, h, err, pnc = invoke(brokenRT(rp), o)
+	_, h, err, pnc = invoke(brokenRT(rp, o), o)
 	if pnc != nil {
 		return "panic-with-broken-body", fmt.Sprintf("%s panic=%v", obs, pnc)
 	}
@@ -500,10 +520,15 @@ func checkClient(c clientCase, o optSet) (string, string) {
 	}
 	body, _ := proto.Marshal(wrapperspb.String("resp"))
 	wantOut := "resp"
-	if c.Body == "empty" {
+	switch c.Body {
+	case "empty":
 		body, wantOut = nil, ""
+	case "page":
+		// an error page, as a proxy writes one; only a member where the reply is a failure
+		// (non-2xx, or a parseable non-OK X-GRPC-Status): main
+		body, wantOut = errorPage, ""
 	}
-	out, h, err, pnc := invoke(common.CannedRT(c.HTTP, c.replyHeader(), body), o)
+	out, h, err, pnc := invoke(cannedFor(o, c.HTTP, c.replyHeader(), body), o)
 	obs := fmt.Sprintf("opts=%s err=%v", o, err)
 	if pnc != nil {
 		return "panic", fmt.Sprintf("opts=%s panic=%v", o, pnc)
@@ -524,6 +549,9 @@ func checkClient(c clientCase, o optSet) (string, string) {
 			return cl, obs + " " + d
 		}
 		return "", obs
+	}
+	if is2xx && o.mayReject(len(body)) && tooLarge(err) {
+		return "", obs + " (response larger than the caller's receive limit: not judged)"
 	}
 	if is2xx && err != nil {
 		return "2xx-not-ok", obs
@@ -694,13 +722,18 @@ func main() {
 		}
 	}
 
+	// the lists of the new client-side dimensions (extra.go)
+	extraSets := extraOptSets(thorough)
+	sweepExtra := sweepExtraSets(thorough)
+	liveExtra := liveExtraSets()
+
 	if p := common.Arg("replay"); p != "" {
 		var probe struct {
 			Kind string  `json:"kind"`
 			Opts *optSet `json:"opts"`
 		}
 		common.LoadReplay(p, &probe)
-		sets := optSets
+		sets := append(append([]optSet(nil), optSets...), extraSets...)
 		if probe.Opts != nil {
 			sets = []optSet{*probe.Opts}
 		}
@@ -781,7 +814,7 @@ func main() {
 
 	evals := 0
 	collideCases, chainCases, wireCases, streamCollideCases := 0, 0, 0, 0
-	extraSamples := 0
+	extraSamples, extraSamples2 := 0, 0
 	// over loopback: no options, and one grpc.Header plus one grpc.Trailer
 	wireSets := []optSet{{}, {H: 1, T: 1}}
 	distinct := keySet{}
@@ -820,20 +853,35 @@ func main() {
 	mds := []string{"", "header", "trailer", "both"}
 	msgs := []string{"msg", "empty", "colon"}
 
+	// what the phase at hand passes to doServer's client half: phase (a) every list,
+	// the older ones and those of the new dimensions; (e), (f) the older ones
+	allSets := append(append([]optSet(nil), optSets...), extraSets...)
+	serverSets := allSets
+	serverWireSets := wireSets
+	extraEvals, extraWireCases := 0, 0
+	reportServer := func(c serverCase, o optSet, clause, obs string) {
+		cc := c
+		cc.Opts = &o
+		if g, ok := c.optGroup(o, clause); ok {
+			col.report(g, c.optExtras(o), clause+": "+obs, cc)
+			return
+		}
+		col.report(c.group(clause), c.extras(o), clause+": "+obs, cc)
+	}
 	// one server case: the reply once, then the client once per option list
 	doServer := func(c serverCase, key string) {
 		current.Store(fmt.Sprintf("%+v", c))
 		if c.Wire {
 			// over loopback every option list is a call of its own
-			for _, o := range wireSets {
+			for _, o := range serverWireSets {
 				evals++
 				clause, obs := checkServerWire(c, o)
 				distinct.add(key + "|wire|" + o.String())
+				if o.X != "" {
+					extraEvals++
+				}
 				if clause != "" {
-					o := o
-					cc := c
-					cc.Opts = &o
-					col.report(c.group(clause), c.extras(o), clause+": "+obs, cc)
+					reportServer(c, o, clause, obs)
 				}
 			}
 			return
@@ -848,11 +896,18 @@ func main() {
 			col.report(c.group(clause), c.extras(optSet{}), clause+": "+obs, c)
 			return
 		}
-		for _, o := range optSets {
+		for _, o := range serverSets {
 			evals++
+			if o.X != "" || o.Len != "" {
+				extraEvals++
+			}
 			clause, obs := checkServerClient(c, rp, o)
 			if nontrivial {
 				distinct.add(key + "|" + o.String())
+			}
+			if extraSamples2 < 4 && c.Code%6 == 5 && c.MD == "" && c.Details == 0 && c.Msg == "" && !c.Cancelled && c.Collide == nil && c.Chain == nil && (c.Renderer == "doc" || c.Renderer == "default") && (o.X == "recv=fit" || o.X == "recv=1k") && o.Len == "declared" && o.H == 0 {
+				extraSamples2++
+				samples = append(samples, map[string]interface{}{"case": c, "opts": o.String(), "observed": obs})
 			}
 			if len(samples) < 6 && c.Code%5 == 1 && c.MD == "both" && c.Details == 1 && o.H == 1 && o.T == 1 && !o.Peer && !o.Creds && !c.Cancelled {
 				samples = append(samples, map[string]interface{}{"case": c, "opts": o.String(), "observed": obs})
@@ -863,19 +918,18 @@ func main() {
 				samples = append(samples, map[string]interface{}{"case": c, "opts": o.String(), "observed": obs})
 			}
 			if clause != "" {
-				o := o
-				cc := c
-				cc.Opts = &o
-				col.report(c.group(clause), c.extras(o), clause+": "+obs, cc)
+				reportServer(c, o, clause, obs)
 			}
 		}
 	}
+	// phase (a) also with the renderer that writes an error document
+	renderersA := append(append([]string(nil), renderers...), "doc")
 
 	// simplest first: the new dimensions at their base value (the old grammar), then the rest
 	for pass := 0; pass < 2; pass++ {
 		for _, code := range codeList {
 			for _, cancelled := range []bool{false, true} {
-				for _, r := range renderers {
+				for _, r := range renderersA {
 					for _, md := range mds {
 						for _, msg := range msgs {
 							for det := 0; det <= 2; det++ {
@@ -890,6 +944,12 @@ func main() {
 								if msg == "msg" {
 									c.Msg = ""
 								}
+								// the lists of the new client-side dimensions: handler metadata none / both,
+								// message "msg", 0..1 details
+								serverSets = optSets
+								if (md == "" || md == "both") && msg == "msg" && det <= 1 {
+									serverSets = allSets
+								}
 								doServer(c, fmt.Sprintf("srv|%d|%v|%s|%s|%s|%d", code, cancelled, r, md, msg, det))
 							}
 						}
@@ -899,6 +959,7 @@ func main() {
 		}
 	}
 	lap("unary server->client")
+	serverSets = allSets
 	// server-side deadline (GRPC-Timeout) expired, or far away, while the request itself is alive or cancelled
 	for _, code := range []uint32{1, 4, 5} {
 		for _, cancelled := range []bool{false, true} {
@@ -911,20 +972,24 @@ func main() {
 		}
 	}
 	for _, cancelled := range []bool{false, true} {
-		for _, r := range renderers {
+		for _, r := range renderersA {
 			for _, md := range []string{"", "both"} {
 				c := serverCase{Kind: "server", Code: 0, Cancelled: cancelled, Renderer: r, OKErr: true, MD: md}
 				doServer(c, fmt.Sprintf("srv|okerr|%v|%s|%s", cancelled, r, md))
 			}
 		}
 	}
+	serverSets = optSets // the phases below: the older lists
 
 	// synthetic replies through the real client
 	headers := []string{"<absent>", "", "x:y", ":", "5", "5:a:b: c"}
-	doClient := func(c clientCase) {
+	doClient := func(c clientCase, sets []optSet) {
 		current.Store(fmt.Sprintf("%+v", c))
-		for _, o := range sweepSets {
+		for _, o := range sets {
 			evals++
+			if o.X != "" || o.Len != "" {
+				extraEvals++
+			}
 			clause, obs := checkClient(c, o)
 			distinct.add(fmt.Sprintf("cli|%v|%d|%s|%v|%v|%s|%s", c.Stream, c.HTTP, c.Header, c.MD, c.Details, c.Body, o))
 			if len(samples) < 10 && c.HTTP%137 == 0 && c.Header == "<absent>" && c.MD && !c.Details && c.Body == "" && o.H == 1 && o.T == 1 && !o.Peer && !o.Creds {
@@ -934,6 +999,14 @@ func main() {
 				o := o
 				cc := c
 				cc.Opts = &o
+				if o.X != "" {
+					kind := "client-opt"
+					if c.Stream {
+						kind = "stream-client-opt"
+					}
+					col.report(fmt.Sprintf("C14|%s|%s|header=%s|%s", kind, o.X, c.Header, clause), fmt.Sprintf("|http=%d", c.HTTP)+strings.TrimPrefix(c.extras(o), fmt.Sprintf("|http=%d", c.HTTP)), clause+": "+obs, cc)
+					continue
+				}
 				col.report(c.group(clause), c.extras(o), clause+": "+obs, cc)
 			}
 		}
@@ -948,10 +1021,23 @@ func main() {
 							if base != (pass == 0) {
 								continue
 							}
-							doClient(clientCase{Kind: "client", HTTP: hs, Header: h, MD: md, Details: det, Body: body})
+							doClient(clientCase{Kind: "client", HTTP: hs, Header: h, MD: md, Details: det, Body: body}, sweepSets)
 						}
 					}
 				}
+			}
+		}
+	}
+	// the new client-side dimensions over the same statuses and header shapes: the body an
+	// encoded response, or - where the reply is a failure - a proxy's error page
+	for hs := 100; hs <= 599; hs++ {
+		for _, h := range headers {
+			for _, body := range []string{"", "page"} {
+				c := clientCase{Kind: "client", HTTP: hs, Header: h, Body: body}
+				if body == "page" && hs >= 200 && hs < 300 && !c.headerDecides("") {
+					continue // a 2xx reply without a code whose body is no response: nothing to derive
+				}
+				doClient(c, sweepExtra)
 			}
 		}
 	}
@@ -964,7 +1050,7 @@ func main() {
 					if det && !thorough && h != "5" && h != "5:a:b: c" {
 						continue // quick tier: the details header only where it must be recovered
 					}
-					doClient(clientCase{Kind: "client", HTTP: hs, Header: h, MD: md, Details: det, Stream: true})
+					doClient(clientCase{Kind: "client", HTTP: hs, Header: h, MD: md, Details: det, Stream: true}, sweepSets)
 				}
 			}
 		}
@@ -991,8 +1077,16 @@ func main() {
 								c.Msg = ""
 							}
 							current.Store(fmt.Sprintf("%+v", c))
-							for _, o := range optSets {
+							sets := optSets
+							if (md == "" || md == "both") && msg == "msg" && det <= 1 {
+								// the extra option kinds (extra.go), alone and with one of each older kind
+								sets = append(append([]optSet(nil), optSets...), liveExtra...)
+							}
+							for _, o := range sets {
 								evals++
+								if o.X != "" {
+									extraEvals++
+								}
 								clause, obs := checkStream(c, o)
 								if code != 0 {
 									distinct.add(fmt.Sprintf("str|%d|%s|%s|%d|%d|%s", code, md, msg, det, n, o))
@@ -1004,6 +1098,14 @@ func main() {
 									o := o
 									cc := c
 									cc.Opts = &o
+									if o.X != "" {
+										outcome := "failure"
+										if code == 0 {
+											outcome = "success"
+										}
+										col.report(fmt.Sprintf("C14|stream-opt|%s|%s|%s", o.X, outcome, clause), fmt.Sprintf("|code=%d", code)+extras(md, c.Msg, det, o)+fmt.Sprintf("|nmsgs=%d", n), clause+": "+obs, cc)
+										continue
+									}
 									col.report(fmt.Sprintf("C14|stream|code=%d|%s", code, clause), extras(md, c.Msg, det, o)+fmt.Sprintf("|nmsgs=%d", n), clause+": "+obs, cc)
 								}
 							}
@@ -1136,6 +1238,23 @@ func main() {
 			}
 		}
 	}
+	// (g') the plain cases over net/http on loopback, where the real stack frames the
+	// reply (a short body or one with a Content-Length: declared; "docstream": chunked):
+	// codes x renderers x (no option, header+trailer, and every extra option alone and
+	// with one of each older kind)
+	serverWireSets = append(append([]optSet(nil), wireSets...), liveExtra...)
+	wireCodes := quickCodes
+	if thorough {
+		wireCodes = codeList
+	}
+	for _, code := range wireCodes {
+		for _, r := range append(append([]string(nil), renderersA...), "docstream") {
+			c := serverCase{Kind: "server", Code: code, Renderer: r, Wire: true}
+			extraWireCases++
+			doServer(c, fmt.Sprintf("srv-wire|%d|%s", code, r))
+		}
+	}
+	serverWireSets = wireSets
 	lap("loopback")
 
 	// (h) streams: SetHeader / SendHeader / SetTrailer with a colliding key
@@ -1309,11 +1428,15 @@ func main() {
 		"option_lists":        len(optSets),
 		"option_lists_sweeps": len(sweepSets),
 		"collapsed_failures":  col.collapsed,
-		"rule": fmt.Sprintf("total enumeration. (a) unary, server then client: (%d gRPC codes: 0..17, 99, 1000, 2^31-1, 2^31, 3e9, 2^32-1%s) x (request context live/cancelled) x (%d renderers: %s) x (handler sets no metadata / header / trailer / both) x (message \"msg\" / empty / with colons) x (0..2 status details) through the real server on a recorder [plus GRPC-Timeout expired/far x cancelled x 3 codes, and an error carrying OK x renderers], and every recorded reply through the real client once for EACH of the %d call-option lists {0,1,2 grpc.Header} x {0,1,2 grpc.Trailer} x {grpc.Peer or not} x {grpc.PerRPCCredentials or not}, body intact and cut short. (b) unary, synthetic replies: every HTTP status 100..599 x 6 X-GRPC-Status shapes (absent, \"\", \"x:y\", \":\", \"5\", \"5:a:b: c\") x reply metadata present or not x X-GRPC-Details present or not x body (encoded response / empty) x %d option lists (quick tier: every subset of the four option kinds plus the doubled Header/Trailer lists, 19; thorough: all 36) through Invoke. (c) the same statuses x shapes x metadata (x details header%s) x the same option lists through NewStream with a well-formed framed body. (d) server-streaming method end to end through the real server and client: codes x handler metadata x message x details x (0 or 1 message sent first) x option lists, plus an error carrying OK. (e) handler-set metadata colliding with the protocol's own response headers: %d entries = {x-grpc-status: another code+message / \"0:OK\" / unparseable / the handler's code with another message; x-grpc-details: a decodable stale detail / not base64; content-type: text/plain / application/json; content-length: 0 / 3 / 99999} x {grpc.SetHeader(key), grpc.SetTrailer(key), grpc.SetHeader(\"x-grpc-trailer-\"+key)}, each contradicting what the handler then returns, crossed with codes x live/cancelled x renderers x handler metadata (%s) x all option lists, body intact and cut short; status details 1..2 swept for the status/details entries and the message shapes for the status entries; plus an error carrying OK x entries x renderers [%d server cases]. (f) the two-hop chain end to end: a backend httpgrpc server (every code x 0..1 details, sets h-key/t-key) called through an httpgrpc channel by a gateway handler that relays the backend call's grpc.Header / grpc.Trailer metadata (header only / trailer only / both) with grpc.SetHeader / SetTrailer and then returns its own outcome (%d gateway codes x 0..1 details, %s) x renderers x all option lists of the outer caller [%d cases]. (g) the same entries and the chain (backend codes 0/5/14, both hops) over net/http on loopback for gateway codes 0/5/14 x renderers x option lists {none, header+trailer}, and the stream entries for codes 0/5 [%d cases]. (h) server-streaming method: the same %d key/value pairs x {SetHeader, SendHeader, SetTrailer} x codes x (0 or 1 message sent) x (0..1 details for status/details entries) x all option lists [%d cases]. Oracle: documented HTTP status (499 rule); the caller gets exactly the handler's code, message and details whenever X-GRPC-Status is present, under every option list; without it OK for 2xx only; grpc.Header/grpc.Trailer variables hold the handler's h-key/t-key. In (e)-(h) the oracle is the same: what the HANDLER (the gateway) returned, whatever metadata it set. A case is non-trivial when it reaches the error renderer or the status-derivation path (everything except the plain OK reply of (a)/(d); a success of (e)/(f) counts only when a status or details header is on the recorded reply; (g)/(h) by all parameters); distinct by all its parameters including the option list. Failures are reported once per (old-grammar case, clause) - in (e)-(h) once per (colliding entry or chain, handler succeeded/failed, clause) - under the simplest failing member; the rest are counted in collapsed_failures. (i) how the handler's error carries the code: %d carriers {status.Error as it is; wrapped with %%w once / twice; inside an application error type with Unwrap(); errors.Join(status, other) / errors.Join(other, status); an application error type with GRPCStatus(), bare / wrapped with %%w [these two also with an OK status]; context.Canceled / context.DeadlineExceeded bare / wrapped once / twice / in an Unwrap() type / joined; errors.New (Unknown)} x server interceptor {none, passes the error on, annotates it with %%w} x every code the carrier can carry (all codes of (a); 1 and 4 for context errors) x 0..1 status details; unary: x request live/cancelled x {NewServer+WithServerUnaryInterceptor with each renderer; HandleServices, HandleMethod with their unaryInt argument, default renderer} [%d cases]; server-streaming: x {NewServer+WithServerStreamInterceptor, HandleServices, HandleStream with streamInt} x (0 or 1 message sent) [%d cases]; each x option lists {none, header+trailer}, body intact and cut short. The status the handler returned is what grpc-go reads from the error (status.FromError, i.e. errors.As, then status.FromContextError, i.e. errors.Is); every member is first calibrated: that reading must give the code the member was built from. Oracle as in (a)/(d) with that status (message of a joined error not judged). Reported once per (carrier, wrapped by the handler alone / also by an annotating interceptor) under the simplest failing member, whose clause is in the tail. (j) several registrations in one process: every sequence of 1 and 2 registrations over %d (entry point, renderer option) pairs = {HandleServices, HandleMethod, HandleStream, NewServer+RegisterService} x {no option, ErrorRenderer(DefaultErrorRenderer), a renderer that writes nothing, a renderer with its own status 418} and every sequence of 3 over %d of them (quick tier: without the explicit default) = %d sequences, EACH IN A PROCESS OF ITS OWN (child of this binary); sequences of 1 and 2: after every registration every handler made so far (unary and streaming) is called with every code of (a) x request live/cancelled (streams: live); sequences of 3: after the third registration every handler with codes %v x live/cancelled [%d requests]. Each handler is judged against its OWN options: no option / explicit default -> the documented table and the 499 rule and no custom renderer called; custom renderer -> exactly its own renderer called once with the handler's code, nobody else's; always: the caller recovers the code (unary: recorded reply through the real client; stream: end to end). Reported once per (entry point and option of the judged handler, unary/stream, clause) under the shortest failing sequence. distinct_nontrivial adds for (i) every case x option list except the plain success and for (j) every request with a non-OK code (distinct by sequence, judged handler, moment, method kind, code, cancellation; counted in the children).",
+		"rule": fmt.Sprintf("total enumeration. (a) unary, server then client: (%d gRPC codes: 0..17, 99, 1000, 2^31-1, 2^31, 3e9, 2^32-1%s) x (request context live/cancelled) x (%d renderers: %s) x (handler sets no metadata / header / trailer / both) x (message \"msg\" / empty / with colons) x (0..2 status details) through the real server on a recorder [plus GRPC-Timeout expired/far x cancelled x 3 codes, and an error carrying OK x renderers], and every recorded reply through the real client once for EACH of the %d call-option lists {0,1,2 grpc.Header} x {0,1,2 grpc.Trailer} x {grpc.Peer or not} x {grpc.PerRPCCredentials or not}, body intact and cut short. (b) unary, synthetic replies: every HTTP status 100..599 x 6 X-GRPC-Status shapes (absent, \"\", \"x:y\", \":\", \"5\", \"5:a:b: c\") x reply metadata present or not x X-GRPC-Details present or not x body (encoded response / empty) x %d option lists (quick tier: every subset of the four option kinds plus the doubled Header/Trailer lists, 19; thorough: all 36) through Invoke. (c) the same statuses x shapes x metadata (x details header%s) x the same option lists through NewStream with a well-formed framed body. (d) server-streaming method end to end through the real server and client: codes x handler metadata x message x details x (0 or 1 message sent first) x option lists, plus an error carrying OK. (e) handler-set metadata colliding with the protocol's own response headers: %d entries = {x-grpc-status: another code+message / \"0:OK\" / unparseable / the handler's code with another message; x-grpc-details: a decodable stale detail / not base64; content-type: text/plain / application/json; content-length: 0 / 3 / 99999} x {grpc.SetHeader(key), grpc.SetTrailer(key), grpc.SetHeader(\"x-grpc-trailer-\"+key)}, each contradicting what the handler then returns, crossed with codes x live/cancelled x renderers x handler metadata (%s) x all option lists, body intact and cut short; status details 1..2 swept for the status/details entries and the message shapes for the status entries; plus an error carrying OK x entries x renderers [%d server cases]. (f) the two-hop chain end to end: a backend httpgrpc server (every code x 0..1 details, sets h-key/t-key) called through an httpgrpc channel by a gateway handler that relays the backend call's grpc.Header / grpc.Trailer metadata (header only / trailer only / both) with grpc.SetHeader / SetTrailer and then returns its own outcome (%d gateway codes x 0..1 details, %s) x renderers x all option lists of the outer caller [%d cases]. (g) the same entries and the chain (backend codes 0/5/14, both hops) over net/http on loopback for gateway codes 0/5/14 x renderers x option lists {none, header+trailer}, and the stream entries for codes 0/5 [%d cases]. (h) server-streaming method: the same %d key/value pairs x {SetHeader, SendHeader, SetTrailer} x codes x (0 or 1 message sent) x (0..1 details for status/details entries) x all option lists [%d cases]. Oracle: documented HTTP status (499 rule); the caller gets exactly the handler's code, message and details whenever X-GRPC-Status is present, under every option list; without it OK for 2xx only; grpc.Header/grpc.Trailer variables hold the handler's h-key/t-key. In (e)-(h) the oracle is the same: what the HANDLER (the gateway) returned, whatever metadata it set. A case is non-trivial when it reaches the error renderer or the status-derivation path (everything except the plain OK reply of (a)/(d); a success of (e)/(f) counts only when a status or details header is on the recorded reply; (g)/(h) by all parameters); distinct by all its parameters including the option list. Failures are reported once per (old-grammar case, clause) - in (e)-(h) once per (colliding entry or chain, handler succeeded/failed, clause) - under the simplest failing member; the rest are counted in collapsed_failures. (i) how the handler's error carries the code: %d carriers {status.Error as it is; wrapped with %%w once / twice; inside an application error type with Unwrap(); errors.Join(status, other) / errors.Join(other, status); an application error type with GRPCStatus(), bare / wrapped with %%w [these two also with an OK status]; context.Canceled / context.DeadlineExceeded bare / wrapped once / twice / in an Unwrap() type / joined; errors.New (Unknown)} x server interceptor {none, passes the error on, annotates it with %%w} x every code the carrier can carry (all codes of (a); 1 and 4 for context errors) x 0..1 status details; unary: x request live/cancelled x {NewServer+WithServerUnaryInterceptor with each renderer; HandleServices, HandleMethod with their unaryInt argument, default renderer} [%d cases]; server-streaming: x {NewServer+WithServerStreamInterceptor, HandleServices, HandleStream with streamInt} x (0 or 1 message sent) [%d cases]; each x option lists {none, header+trailer}, body intact and cut short. The status the handler returned is what grpc-go reads from the error (status.FromError, i.e. errors.As, then status.FromContextError, i.e. errors.Is); every member is first calibrated: that reading must give the code the member was built from. Oracle as in (a)/(d) with that status (message of a joined error not judged). Reported once per (carrier, wrapped by the handler alone / also by an annotating interceptor) under the simplest failing member, whose clause is in the tail. (j) several registrations in one process: every sequence of 1 and 2 registrations over %d (entry point, renderer option) pairs = {HandleServices, HandleMethod, HandleStream, NewServer+RegisterService} x {no option, ErrorRenderer(DefaultErrorRenderer), a renderer that writes nothing, a renderer with its own status 418} and every sequence of 3 over %d of them (quick tier: without the explicit default) = %d sequences, EACH IN A PROCESS OF ITS OWN (child of this binary); sequences of 1 and 2: after every registration every handler made so far (unary and streaming) is called with every code of (a) x request live/cancelled (streams: live); sequences of 3: after the third registration every handler with codes %v x live/cancelled [%d requests]. Each handler is judged against its OWN options: no option / explicit default -> the documented table and the 499 rule and no custom renderer called; custom renderer -> exactly its own renderer called once with the handler's code, nobody else's; always: the caller recovers the code (unary: recorded reply through the real client; stream: end to end). Reported once per (entry point and option of the judged handler, unary/stream, clause) under the shortest failing sequence. distinct_nontrivial adds for (i) every case x option list except the plain success and for (j) every request with a non-OK code (distinct by sequence, judged handler, moment, method kind, code, cancellation; counted in the children). (k)+(l) the client-side dimensions of extra.go: (k) one option of the kinds the channel does not act on today, %d members {grpc.MaxCallRecvMsgSize 0 / exactly the response's size (%d) / 1024 / MaxInt32; MaxCallSendMsgSize exactly the request's size (%d) / 1024; both limits at the exact sizes; WaitForReady true / false; CallContentSubtype(proto); ForceCodec(proto); UseCompressor(gzip); MaxRetryRPCBufferSize(1024); OnFinish}, and (l) how the transport reports the reply's length {declared: ContentLength and Content-Length header = the body's size; chunked: ContentLength -1}. Crossed with phase (a) - which for this also gets a fourth renderer, \"doc\", writing a 2 KiB JSON error document with Content-Length under the documented status - as %d further lists per recorded reply (of the cases with handler metadata none / both, message \"msg\", 0..1 details, and of the GRPC-Timeout and error-carrying-OK cases): {no extra, each extra} x %s x framing (%s), body intact and cut short; with the synthetic replies of (b) for every status x header shape x body {encoded response; a proxy's 2 KiB error page, where the reply is a failure} x %d lists; with the streaming method of (d) for handler metadata none/both x 0..1 details x every extra x {alone, with one of each older kind}; and with the plain cases over net/http on loopback (g'): %d codes x renderers {%s, docstream = the document without Content-Length, flushed} x {none, header+trailer, every extra alone / with one of each older kind} [%d cases], where net/http itself frames the reply. Oracle unchanged: a failed call carries no response message, so no limit applies to it and the caller recovers exactly the handler's code, message and details, however long the error body; a success must stay a success, except that where a delivered message is larger than the receive limit (recv=0) both success and ResourceExhausted (grpc-go) are accepted. Failures of a list with an extra option are reported once per (extra option, renderer, handler succeeded/failed, clause) - synthetic: (extra option, header shape, clause); stream: (extra option, succeeded/failed, clause) - under the simplest failing member.",
 			len(codeList), map[bool]string{true: ", 18..64, 255, 256, 65535, 65536, 2^31+5, 2^32-2", false: ""}[thorough], len(renderers), strings.Join(renderers, "/"), len(optSets), len(sweepSets), map[bool]string{true: "", false: " only where a code is parseable"}[thorough],
 			len(unaryCollides), map[bool]string{true: "none / both", false: "none; none / both in the thorough tier"}[thorough], collideCases,
 			len(gatewayCodes), map[bool]string{true: "request live/cancelled", false: "request live; the 24 quick-tier codes and live/cancelled in the thorough tier"}[thorough], chainCases, wireCases, len(streamCollides)/3, streamCollideCases,
-			len(allCarriers()), carrierCases, carrierStreamCases, len(allRegSpecs()), len(tripleSpecs), len(regCases), tripleCodes, regProbes),
+			len(allCarriers()), carrierCases, carrierStreamCases, len(allRegSpecs()), len(tripleSpecs), len(regCases), tripleCodes, regProbes,
+			len(extraIDs), respSize, reqSize, len(extraSets), map[bool]string{true: "{none, header, trailer, header+trailer, peer, creds, one of each, two headers + two trailers + peer + creds}", false: "{no other option, one of each older kind}"}[thorough], map[bool]string{true: "declared / chunked", false: "declared / chunked for the size options and for no extra, declared for the rest"}[thorough], len(sweepExtra), len(wireCodes), strings.Join(renderersA, "/"), extraWireCases),
+		"extra_option_lists":     len(extraSets),
+		"extra_evaluations":      extraEvals,
+		"loopback_plain_cases":   extraWireCases,
 		"colliding_entries":      len(unaryCollides),
 		"collide_cases":          collideCases,
 		"chain_cases":            chainCases,
@@ -1328,7 +1451,7 @@ func main() {
 		"net/http itself is exercised only in (g) (loopback, keep-alives off); everywhere else: server on httptest.ResponseRecorder, client on a canned RoundTripper (streaming end to end: the handler runs inside RoundTrip, the reply is complete when it returns)",
 		"colliding metadata keys are lower case (what metadata.Pairs and a relayed grpc.Header variable produce); one colliding entry per handler, except in the chain, which relays everything the backend reply carried",
 		"the chain's backend hop runs without a recorder in between only in (g); in (f) both hops are recorder-based",
-		"call options the channel ignores (WaitForReady, MaxCall*MsgSize, CallContentSubtype, ...) are not part of the option dimension",
+		"one extra option (k) per call (plus the pair of both limits); the deprecated aliases FailFast and CallCustomCodec are not members; send limits below the request's size and receive limits between 1 and the response's size minus 1 are not members (the handler may then not run / what a delivered oversized message turns into is not the statement's subject); (k) and (l) are not crossed with the colliding-metadata, chain, carrier and registration phases",
 		"the JSON unary content type is not enumerated (the real client never sends it)",
 		"(i) the entry points other than NewServer are crossed with the carriers under the default renderer only (entry point x renderer option is (j)); one wrapping layer per interceptor, one interceptor per handler; an interceptor that REPLACES the status is not a member (the status the handler returned is then not defined)",
 		"(j) all registrations of a sequence use the same service (t.S with unary M and server-streaming SS; the request value selects the code), no interceptors; sequences of 3 are exercised only after the third registration (the states before it are the cases of the shorter sequences) and, in the quick tier, with 5 codes and without the explicit-default option; sequences longer than 3 are not enumerated",
